@@ -192,6 +192,67 @@ theorem noop_pass_id {cfg : Cfg} {P : Store} {now now1 : Tick} {exec : Id → Na
       simp [hj, h2, h3]
   · rfl
 
+/-! ### the purge of leftovers on a blind or FREE object (423b86f, 40d09eb) -/
+
+theorem purged_owned (env : Env) (s : State E) {i : Id} (hi : i ∈ env.owned) : purged env s i = none := by
+  unfold purged purge
+  simp [hi]
+
+theorem purged_id_of_norec (env : Env) (s : State E) (hn : ∀ i ∈ env.owned, s.P i = none) (j : Id) :
+    purged env s j = s.P j := by
+  have hfs : ∀ k, fromStorage s.P env.owned k = none := by
+    intro k
+    unfold fromStorage
+    by_cases hk : k ∈ env.owned
+    · simp [hk, hn k hk]
+    · simp [hk]
+  unfold purged purge
+  by_cases hj : j ∈ env.owned
+  · simp [hj, hn j hj]
+  · have h2 : (env.owned.any fun k => k == j && (fromStorage s.P env.owned k).isSome) = false := by
+      rw [List.any_eq_false]; intro k _; simp [hfs k]
+    have h3 : allSubrefs (fromStorage s.P env.owned) env.owned = [] := by
+      unfold allSubrefs
+      simp [hfs]
+    simp [hj, h2, h3]
+
+theorem leftovers_false_of_norec (env : Env) (s : State E) (hn : ∀ i ∈ env.owned, s.P i = none) :
+    leftovers env s = false := by
+  unfold leftovers
+  rw [List.any_eq_false]
+  intro i _
+  simp [purged_id_of_norec env s hn i]
+
+theorem norec_of_leftovers_false (env : Env) (s : State E) (h : leftovers env s = false) :
+    ∀ i ∈ env.owned, s.P i = none := by
+  intro i hi
+  unfold leftovers at h
+  rw [List.any_eq_false] at h
+  have := h i (by simp [ids, hi])
+  rw [purged_owned env s hi] at this
+  cases hP : s.P i with
+  | none => rfl
+  | some r => simp [hP] at this
+
+theorem leftovers_congr (env : Env) (s s' : State E) (hP : s'.P = s.P) : leftovers env s' = leftovers env s := by
+  unfold leftovers purged; rw [hP]
+
+theorem purged_uniform (env : Env) (s : State E) : UniformOn env.owned (purged env s) :=
+  ⟨"", fun i hi r h => by rw [purged_owned env s hi] at h; cases h⟩
+
+/-- the shape of the turn without handlers on a blind or FREE object -/
+theorem purgeTurn_cases (env : Env) (s : State E) :
+    (leftovers env s = true ∧
+      purgeTurn env s = { s with P := purged env s, now := s.now + env.lat, pending := true, writes := s.writes + 1 }) ∨
+    (leftovers env s = false ∧ purgeTurn env s = { s with pending := false, writes := s.writes + cp env }) := by
+  unfold purgeTurn
+  cases h : leftovers env s <;> simp
+
+theorem purgeTurn_norec_next (env : Env) (s : State E) : leftovers env (purgeTurn env s) = false := by
+  rcases purgeTurn_cases env s with ⟨_, h⟩ | ⟨hl, h⟩ <;> rw [h]
+  · exact leftovers_false_of_norec env _ (fun i hi => purged_owned env s hi)
+  · exact (leftovers_congr env s _ rfl).trans hl
+
 /-- after an informational pass no owned record is left, if the cause is the no-op; otherwise nothing moved -/
 theorem info_pass_twice {cfg : Cfg} {P : Store} {now now1 now' now1' : Tick} {exec : Id → Nat → Outcome}
     (hr : handlerReasons.contains cfg.reason = false) (j : Id) :
@@ -235,7 +296,7 @@ theorem hbound_le_one_of_closed (env : Env) (s' : State E) (hm : s'.marked = fal
     hbound env s' ≤ 1 := by
   have hh := closed_next_not_handler s' hm hb hf
   unfold hbound core
-  rw [hh, changedOf_false_of_norec env s' hh hn]
+  rw [hh, changedOf_false_of_norec env s' hh hn, leftovers_false_of_norec env s' hn]
   split
   · omega
   · split <;> simp
@@ -299,14 +360,35 @@ theorem selOf_next_mem (env : Env) (s : State E) (hc : (pass env s).closed = fal
     intro h
     simp [hu] at h
 
+theorem handler_not_free (s : State E) (hh : isHandler s = true) : (causeOf s).reason ≠ .free := by
+  intro h
+  unfold isHandler at hh
+  rw [h] at hh
+  exact absurd hh (by decide)
+
+/-- the handling bound of an object the framework sees and that is not FREE -/
+theorem core_handling (env : Env) (s : State E) (hpm : env.prematch = true) (hf : (causeOf s).reason ≠ .free) :
+    core env s =
+      if !isHandler s then (if changedOf env s then 2 else 1)
+      else 2 * Uv (selOf env s) s.P + Av (selOf env s) s.P s.now
+           + (if extrasOf env s then 1 else 0) + 1 + Cv env.cap (selOf env s) s.P s.now := by
+  unfold core
+  simp [hpm, hf]
+
+/-- the bound of a turn without handlers (blind or FREE) -/
+theorem core_purging (env : Env) (s : State E) (h : env.prematch = false ∨ (causeOf s).reason = .free) :
+    core env s = if leftovers env s then 2 else 1 := by
+  unfold core
+  rcases h with h | h <;> simp [h]
+
 theorem hbound_of_open (env : Env) (s' : State E) (hp' : s'.pending = true)
     (hpm : env.prematch = true) (hh' : isHandler s' = true) :
     hbound env s' = 2 * Uv (selOf env s') s'.P + Av (selOf env s') s'.P s'.now
       + (if extras (cfgOf env s') s'.P s'.now then 1 else 0) + 1
       + Cv env.cap (selOf env s') s'.P s'.now := by
-  unfold hbound core
-  rw [extrasOf_eq]
-  simp only [hp', hpm, hh', Bool.not_true, Bool.false_eq_true, if_false]
+  unfold hbound
+  rw [core_handling env s' hpm (handler_not_free s' hh'), extrasOf_eq]
+  simp only [hp', hh', Bool.not_true, Bool.false_eq_true, if_false]
 
 theorem hbound_not_pending (env : Env) (s' : State E) (h : s'.pending = false) : hbound env s' = 0 := by
   unfold hbound; simp [h]
@@ -368,6 +450,7 @@ theorem int_sleep_le (now d cap lat : Int) (hd : 0 ≤ d) (hcap : 0 < cap) (hlat
     handling bound. `hcm`: a closing pass on a marked object is a release turn, not this one. -/
 theorem handle_decreases (env : Env) (wf : WF env) (s : State E) (hfin0 : PassFinal env s)
     (hu : UniformOn env.owned s.P) (hp : s.pending = true) (hpm : env.prematch = true)
+    (hfr : (causeOf s).reason ≠ .free)
     (hcm : (pass env s).closed = true → s.marked = false) :
     hbound env (handleTurn env s) < hbound env s := by
   by_cases hh : isHandler s = true
@@ -380,7 +463,7 @@ theorem handle_decreases (env : Env) (wf : WF env) (s : State E) (hfin0 : PassFi
     have hdl : (pass env s).delays = [] := by
       unfold pass; rw [cycle_not_handler_reason _ _ _ _ _ hr']
     have hb : hbound env s = if changedOf env s then 2 else 1 := by
-      unfold hbound core; simp [hp, hpm, hh']
+      unfold hbound; rw [core_handling env s hpm hfr]; simp [hp, hh']
     rcases handleTurn_cases env s with ⟨hch, h⟩ | ⟨d, _, hm, _⟩ | ⟨hch, _, h⟩
     · -- the purge PATCH; its echo finds nothing to purge
       rw [h, hb, hch]
@@ -405,9 +488,9 @@ theorem handle_decreases (env : Env) (wf : WF env) (s : State E) (hfin0 : PassFi
         unfold changedOf
         simp [hid, hc2]
       have : hbound env (nextState env s (s.now + env.lat) true (s.writes + 1)) = 1 := by
-        unfold hbound core
-        rw [hh2, hnc2]
-        simp [nextState, hpm]
+        unfold hbound
+        rw [core_handling env _ hpm (by rw [hcz]; exact hfr), hh2, hnc2]
+        simp [nextState]
       rw [this]; decide
     · rw [hdl] at hm; simp [minDelay] at hm
     · rw [h, hb, hbound_not_pending _ _ rfl, hch]; decide
